@@ -125,6 +125,7 @@ def _drive(case, run, prob, obs, snap, listener):
     kept = None
     decoy = None
     nops = 0
+    stopped = False
     for op in case["ops"]:
         try:
             if op == "solve":
@@ -140,7 +141,11 @@ def _drive(case, run, prob, obs, snap, listener):
                 run.step(op)
         except Exception as e:
             if "outside of interval" in str(e):
-                return False, ["float-resolution-stop"]
+                # the method refused an interval it can no longer subdivide: nothing was evaluated for it, and what
+                # the solver reports now is judged like after any other call
+                stopped = True
+                snap("GetResults() after call %d (%r) ended at the float resolution" % (nops + 1, op), run.results())
+                break
             raise
         nops += 1
         if case.get("decoy") is not None:
@@ -180,6 +185,8 @@ def _drive(case, run, prob, obs, snap, listener):
     if equal_min > 1:
         classes.append("several-equal-minima")
     classes.append("best-changes>=2" if changes >= 2 else "best-changes<2")
+    if stopped:
+        classes.append("float-resolution-stop")
     return changes >= 2, classes, {"case": case, "evaluations": len(vals), "observations": len(obs),
                                    "best_changes": changes}
 
